@@ -533,6 +533,12 @@ def main():
                 for oi, (par, off) in enumerate(((act, -d / 2), (act, d / 2), (act, -d / 128), (act, d / 128), (act, 0), (oth, -d / 2), (oth, d / 2))):
                     lim = Fraction(float(vstar + off))      # the limit exactly as the solver receives it
                     add("o%d" % oi, "obj", (par, lim), "new %s %s %s=%s ; opt ; %s" % (TRACE, ct, par, vlib_dy(lim), lift))
+                # the same limits on a HOT start: the last column is removed, the rest is solved, the column is put back (it enters non-basic,
+                # often at a non-zero bound) and the LP - the case's LP again - is solved under the limit from the stored basis
+                if cl[0] == "optimal" and p.n >= 2:
+                    for hi, off in enumerate((d / 2, -d / 2, d / 16, -d / 16)):
+                        lim = Fraction(float(vstar + off))
+                        add("h%d" % hi, "obj", (act, lim), "new %s %s ; dropcol ; optq ; readd ; set %s=%s ; opt ; %s" % (TRACE, ct, act, vlib_dy(lim), lift))
         # exact solves under refinement / stalling / iteration limits (default configuration)
         if k < nexact:
             ex = "syncmode=1 solvemode=2 checkmode=2 feastol=0 opttol=0"
